@@ -51,6 +51,28 @@ def run_flow_check(pid, tier, own, closed_cases, real_cases, gen=0, gen_kw=None,
     for i in range(gen):
         g = zoo.gen_graph(rng, name="G%d" % i, **(gen_kw or {}))
         insts.append(("G%d" % i, g))
+    # thorough: small generated topologies are also model-checked exhaustively (time-outs are skipped, not judged)
+    if tier == "thorough":
+        small = []
+        for label, g in insts:
+            if label.startswith("G"):
+                nitems = sum(len(p.get("items", [])) + len(p.get("values", [])) for p in g["procs"])
+                ncmd = len([p for p in g["procs"] if p["kind"] == "cmd"])
+                if ncmd <= 3 and nitems <= 4: small.append((label, g))
+        def gclosed(item):
+            label, g = item
+            return label, g, fc.closed_model(g, liveness=False, workers=4, timeout=240)
+        skipped = 0
+        for label, g, r in pmap(gclosed, small[:10], workers=4):
+            if r.error == "timeout": skipped += 1; continue
+            if r.error: chk.undecided.append("closed model of generated graph %s: %s" % (label, r.error[-200:])); continue
+            chk.add_tlc(r); chk.evaluations += 1
+            if r.ok:
+                chk.nontrivial.add("closed:gen:" + json.dumps(norm_inst(g), sort_keys=True))
+                chk.sample(dict(kind="closed-model", instance=label + " (generated)", distinct_states=r.distinct), limit=12)
+            else:
+                model_cex.append(((label, {}), g, r.violated or ("deadlock" if r.deadlock else "?"), r.trace))
+        chk.extra["generated_graphs_model_checked"] = len(small[:10]) - skipped
     for c, inst, what, trace in model_cex:      # model counter-examples are replayed on the real binary
         insts.append(("cex:" + c[0], inst))
     insts += list(extra_real or [])
